@@ -100,13 +100,13 @@ theorem getDouble_dec (q : Rat) : getDouble (.dec q) = .ok (.dbl (toD64 q)) := b
 
 /-- the simp set that evaluates the lattice and the Python protocol on constructor-headed atoms -/
 macro "vp_simp" : tactic => `(tactic|
-  simp [valuePair, valueOp, Atom.cls, Atom.isFloatCls, isBoolA, isIntDec, isStrLike3, isStr, isQN, isNumCls,
+  simp [valuePair, valuePairWith, valueOp, Atom.cls, Atom.isFloatCls, isBoolA, isIntDec, isStrLike3, isStr, isQN, isNumCls,
      Atom.isDur, numRank, castNum, pyOp, pyBinop, subclassFirst, dunder, Atom.pyNum, numCmp, liftPy, dCmp_eq_six, isEqNe, isUA,
      sCmp, iCmp, bCmp, cmpBy_eq_six, Atom.isDT, Atom.isBin, Atom.dt, Atom.binVal, Atom.durVal, durInstanceOf,
      binOrdered, strLtS, strEqS, octLt, D.isNaN])
 
 macro "vpn_simp" : tactic => `(tactic|
-  simp [valuePair, valueOp, Atom.cls, Atom.isFloatCls, isBoolA, isIntDec, isStrLike3, isStr, isQN, isNumCls,
+  simp [valuePair, valuePairWith, valueOp, Atom.cls, Atom.isFloatCls, isBoolA, isIntDec, isStrLike3, isStr, isQN, isNumCls,
      Atom.isDur, numRank, castNum, liftPy, pyOp_int_int, pyOp_int_dec, pyOp_dec_int, pyOp_dec_dec,
      pyOp_dbl_dbl, pyOp_dbl_flt, pyOp_flt_dbl, getDouble_dec])
 
